@@ -107,7 +107,7 @@ class C19(Prop):
             for row in range(len(ADVERTISED[m])):
                 for t in ALL_TREES:
                     cases.append({"kind": "tree", "method": m, "row": row, "tree": to_list(t)})
-        for n in range(0, 13):
+        for n in list(range(0, 41)) + [60, 100, 170]:
             cases.append({"kind": "taylor", "order": n})
         return cases
 
@@ -139,7 +139,10 @@ class C19(Prop):
             te = TaylorExpansion(n)
             ref = np.array([float(Fraction(1, math.factorial(k))) for k in range(n + 1)])
             r.check("taylor.order", te.order == n, f"order attr {te.order}")
-            r.check_close("taylor.coeff", te.coeff, ref, 0.0 if n < 1 else 1e-16 * 4, f"TaylorExpansion({n})")
+            got = np.asarray(te.coeff, dtype=float)
+            if r.check("taylor.shape", got.shape == ref.shape, f"TaylorExpansion({n}): {got.shape} coefficients"):
+                # relative comparison per coefficient (1/k! spans hundreds of decades)
+                r.check_close("taylor.coeff", got / ref, np.ones_like(ref), 1e-14, f"TaylorExpansion({n}) coefficient ratios to 1/k! (a few ulp: scipy evaluates large factorials through the gamma function)")
             r.nontrivial = True
             r.classes.append("taylor")
             return r
